@@ -4,7 +4,8 @@
 //! index (through view(), cross-checked with iter_as_records), derivative vectors (length and
 //! values; for containers derivatives_for(element) is cross-checked with the whole-container
 //! derivatives() and with derivatives_for of every other element), panics; every scalar addition
-//! is cross-checked (on scratch lists) with the `Sum` entry point for the same two operands.
+//! is cross-checked (on scratch lists) with the `Sum` entry point for the same two operands;
+//! op 12 runs `impl Sum for Record` on the script's own lists (model: TapeMachine.TSum).
 #[path = "c06/recops.rs"]
 mod recops;
 
@@ -145,8 +146,9 @@ fn whole_check<T: PartialEq>(
 /// different lists), so that the script's own lists are not touched: `x + y` and
 /// `[x, y].into_iter().sum()` must both panic (operands of two lists) or both give the same
 /// number on the same list with the same derivatives with respect to x and y.
-/// (Harness-only cross-check: the Sum entry point has no operation in the case language.)
-fn sum_agrees<T>(x: &Record<T>, y: &Record<T>) -> bool
+/// (Kept as a harness cross-check on scratch lists; since wave 3 the Sum entry point is also an
+/// operation of the case language - op 12 - compared with the model's TSum.)
+fn sum_agrees<T>(x: &Record<T>, y: &Record<T>) -> Result<(), i64>
 where
     T: Real + Primitive + Clone + PartialEq + 'static,
     for<'t> &'t T: RealRef<T>,
@@ -166,24 +168,40 @@ where
         None => Record::constant(y.number.clone()),
     };
     let plus = guarded(|| u.clone() + w.clone());
-    let sum = guarded(|| vec![u.clone(), w.clone()].into_iter().sum::<Record<T>>());
-    match (plus, sum) {
-        (None, None) => true,
-        (Some(p), Some(q)) => {
-            if p.number != q.number || !same_opt(p.history(), q.history()) {
-                return false;
-            }
-            let dp = guarded(|| p.try_derivatives().map(Vec::from));
-            let dq = guarded(|| q.try_derivatives().map(Vec::from));
-            match (dp, dq) {
-                (Some(None), Some(None)) => true,
-                (Some(Some(a)), Some(Some(b))) => {
-                    [&u, &w].iter().all(|r| r.history().is_none() || a.get(r.index) == b.get(r.index))
+    // the two operands are handed to `Sum` through iterator SHAPES (crate::shapes): the exact-size
+    // vec::IntoIter first, then lower-bound-0 / custom-hint / not-fused / lying-hint iterators over
+    // the same two records (a sample of the shapes per call, all of them for every 7th key);
+    // summation has no reason to consult the hint, so the lying shapes are compared too
+    let key = (x.index as u64) * 5 + (y.index as u64) * 3 + x.history().is_some() as u64 * 2 + y.history().is_some() as u64;
+    let mut shapes_run = vec![0u8];
+    shapes_run.extend(crate::shapes::plan(key, &crate::shapes::LYING));
+    // Err(code): 156 for the exact-size shape, 15600 + shape otherwise
+    let agrees = |shape: u8| -> bool {
+        let sum = guarded(|| crate::shapes::sum_shaped::<Record<T>>(shape, vec![u.clone(), w.clone()]));
+        match (&plus, sum) {
+            (None, None) => true,
+            (Some(p), Some(q)) => {
+                if p.number != q.number || !same_opt(p.history(), q.history()) {
+                    return false;
                 }
-                _ => false,
+                let dp = guarded(|| p.try_derivatives().map(Vec::from));
+                let dq = guarded(|| q.try_derivatives().map(Vec::from));
+                match (dp, dq) {
+                    (Some(None), Some(None)) => true,
+                    (Some(Some(a)), Some(Some(b))) => {
+                        [&u, &w].iter().all(|r| r.history().is_none() || a.get(r.index) == b.get(r.index))
+                    }
+                    _ => false,
+                }
             }
+            _ => false,
         }
-        _ => false,
+    };
+    let bad = shapes_run.into_iter().find(|&shape| !agrees(shape));
+    match bad {
+        None => Ok(()),
+        Some(0) => Err(156),
+        Some(shape) => Err(15600 + shape as i64),
     }
 }
 
@@ -335,8 +353,10 @@ where
                 (v[1].usize()?, v[2].i64()?, v[3].i64()?, v[4].usize()?, v[5].usize()?, v[6].usize()?);
             let r = match (regs.get(a).unwrap_or(&dead), regs.get(b).unwrap_or(&dead)) {
                 (Obj::Rec(x), Obj::Rec(y)) => {
-                    if bcode == 0 && !sum_agrees::<T>(x, y) {
-                        return Some(inconsistent(156));
+                    if bcode == 0 {
+                        if let Err(code) = sum_agrees::<T>(x, y) {
+                            return Some(inconsistent(code));
+                        }
                     }
                     rec_bin::<T>(bcode, x, y, form)?.map(Obj::Rec)
                 }
@@ -440,6 +460,27 @@ where
                 }
             }
             ok(l(vec![z(3), l(idx)]))
+        }
+        (12, 4) => {
+            // `impl Sum for Record` as a machine operation: the records of the named registers are
+            // handed to iter.sum::<Record<T>>() through iterator shape `shape` (crate::shapes), on
+            // the script's OWN lists: a sum over records of two lists panics after it has appended
+            // the partial sums of the records before the foreign one, and those entries stay
+            // (nothing is undone here); the destination register is written on success only
+            let (dst, rs, shape) = (v[1].usize()?, v[2].list()?, v[3].usize()?);
+            if shape >= crate::shapes::SHAPES as usize {
+                return None;
+            }
+            let rs: Vec<usize> = rs.iter().map(|r| r.usize()).collect::<Option<_>>()?;
+            let mut items: Vec<Record<'a, T>> = Vec::with_capacity(rs.len());
+            for r in rs {
+                match regs.get(r).unwrap_or(&dead) {
+                    Obj::Rec(x) => items.push(x.clone()),
+                    _ => return Some(skipped()),
+                }
+            }
+            let r = guarded(|| crate::shapes::sum_shaped::<Record<'a, T>>(shape as u8, items));
+            finish(lists, regs, dst, r.map(Obj::Rec))
         }
         _ => return None,
     })
